@@ -11,6 +11,7 @@ Leg C: oracle on the implementation's observations: after `reload` returned ever
        not) is delivered iff the NEW value accepts it and MAX_LEVEL is not below the new hint; an emission racing
        with reloads is judged by one of the values in play (old or new); a reload on a dropped collector returns
        Err(is_dropped) and changes nothing."""
+import json
 import os
 import sys
 
@@ -173,6 +174,135 @@ def exhaustive_scenarios():
     ]
 
 
+# ------------------------------------------------------------------------------------------------
+# assumption check: a reloadable EnvFilter with span-scoped directives, changed by reload (whole value) and by modify (in place),
+# behaves after every step like a FRESH EnvFilter parsed from the same directive list (harness/sched/src/bin/h_envreload.rs)
+
+ENV_BASE = ["warn", "info", "error", "off", "a=debug", "b=trace", "a=info,b=warn"]
+ENV_DYN = ["[req{id=1}]=debug", "[req{id=2}]=debug", "[req{id=3}]=trace", "[req]=trace", "[req]=info", "a[req{id=1}]=trace",
+           "[job]=debug", "[job]=trace", "[req{id=2}]=info", "b[job]=trace", "[req{id=1}]=warn"]
+
+
+def gen_env_case(rng):
+    """steps: ('init', [d]) ('reload', [d]) ('modify', d) ('newdispatch',) ('rebuild',) ('probe', t)"""
+    cur = [rng.choice(ENV_BASE)] + rng.sample(ENV_DYN, rng.choice([0, 1, 1, 2]))
+    steps = [("init", list(cur))]
+    if rng.random() < 0.85:
+        steps.append(("probe", rng.randrange(2)))       # the callsites are known to the filter BEFORE it changes
+    for _ in range(rng.randint(1, 4)):
+        r = rng.random()
+        if r < 0.55:
+            steps.append(("modify", rng.choice(ENV_DYN + ENV_DYN + ENV_BASE[:4] + ["a=trace", "b=error"])))
+        elif r < 0.8:
+            steps.append(("reload", [rng.choice(ENV_BASE)] + rng.sample(ENV_DYN, rng.choice([0, 1, 2]))))
+        elif r < 0.9:
+            steps.append(("newdispatch",))
+        else:
+            steps.append(("rebuild",))
+        steps.append(("probe", 0))
+        steps.append(("probe", 1))
+    return steps
+
+
+def env_text(steps):
+    out = []
+    for st in steps:
+        if st[0] in ("init", "reload"):
+            out.append("%s %s" % (st[0], ",".join(st[1])))
+        elif st[0] == "modify":
+            out.append("modify %s" % st[1])
+        elif st[0] == "probe":
+            out.append("probe %d" % st[1])
+        else:
+            out.append(st[0])
+    return "\n".join(out) + "\n"
+
+
+def env_probes(binpath, text, path):
+    with open(path, "w") as f:
+        f.write(text)
+    rc, out = vlib.run_bin(binpath, [path], timeout=120)
+    probes, errors = [], []
+    for line in out.splitlines():
+        if not line.startswith("{"):
+            continue
+        try:
+            o = json.loads(line)
+        except ValueError:
+            errors.append(line[:200])
+            continue
+        if o.get("k") == "probe":
+            probes.append((o["t"], o["d"], o["max"]))
+        elif o.get("k") in ("error", "panic"):
+            errors.append(line[:200])
+    return rc, probes, errors
+
+
+ENV_CORPUS = [
+    # seeded C12-D: the span callsite is known to the filter, then a directive for the same span is added IN PLACE
+    [("init", ["warn", "[req{id=1}]=debug"]), ("probe", 0), ("modify", "[req{id=2}]=debug"), ("probe", 0), ("probe", 1)],
+    [("init", ["error", "[req]=info"]), ("probe", 1), ("modify", "[req]=trace"), ("probe", 0), ("probe", 1), ("modify", "[job]=debug"), ("probe", 1)],
+    [("init", ["info"]), ("probe", 0), ("modify", "[job]=trace"), ("probe", 0), ("reload", ["warn", "[req{id=3}]=trace"]), ("probe", 1), ("probe", 0)],
+]
+
+
+def env_stream(ctx, rep, binpath, n):
+    d = os.path.join(ctx.work, "env")
+    os.makedirs(d, exist_ok=True)
+    cases = list(ENV_CORPUS) + [gen_env_case(ctx.rng) for _ in range(n)]
+    jobs = []
+    for i, steps in enumerate(cases):
+        jobs.append((i, steps))
+
+    def one(job):
+        i, steps = job
+        rc, probes, errors = env_probes(binpath, env_text(steps), os.path.join(d, "e%04d.case" % i))
+        res = {"rc": rc, "errors": errors, "diffs": []}
+        cur, k = [], 0
+        for j, st in enumerate(steps):
+            if st[0] in ("init", "reload"):
+                cur = list(st[1])
+            elif st[0] == "modify":
+                cur = cur + [st[1]]
+            elif st[0] == "probe":
+                if k >= len(probes):
+                    res["errors"].append("probe %d missing" % k)
+                    break
+                got = probes[k]
+                k += 1
+                # the reference: a fresh process, the filter parsed from the same directives, probed on the same thread
+                _, ref, rerr = env_probes(binpath, env_text([("init", cur), ("probe", st[1])]), os.path.join(d, "e%04d_r%02d.case" % (i, j)))
+                if rerr or len(ref) != 1:
+                    res["errors"].append("reference failed: %s" % rerr)
+                    continue
+                if (got[1], got[2]) != (ref[0][1], ref[0][2]):
+                    last = next((x for x in reversed(steps[:j]) if x[0] in ("modify", "reload", "init")), None)
+                    res["diffs"].append({"after_step": list(last) if last else None, "probe_thread": st[1], "directives": cur,
+                                         "observed": got[1], "observed_max": got[2], "fresh_filter": ref[0][1], "fresh_max": ref[0][2]})
+        return res
+
+    from concurrent.futures import ThreadPoolExecutor
+    with ThreadPoolExecutor(max_workers=max(2, vlib.NCPU // 2)) as ex:
+        results = list(ex.map(one, jobs))
+    for (i, steps), res in zip(jobs, results):
+        rep.evaluations += 1
+        txt = env_text(steps)
+        for st in steps:
+            rep.count("env-op:" + st[0])
+        if any(st[0] == "modify" and "[" in st[1] for st in steps):
+            rep.nontrivial.add(("env", txt))
+        if res["rc"] != 0 or res["errors"]:
+            rep.violation("EnvFilter reload/modify history failed to run: rc=%s %s" % (res["rc"], res["errors"][:2]), {"case": txt})
+        for df in res["diffs"][:1]:
+            ctxs = [a for a, b in zip(df["observed"], df["fresh_filter"]) if a != b]
+            rep.violation("after %s returned, emissions on thread %d are not judged by the new filter value: observed %s (max level %s) but a fresh "
+                          "EnvFilter parsed from the same directives [%s] gives %s (max level %s)"
+                          % (" ".join(str(x) for x in (df["after_step"] or [])), df["probe_thread"], ctxs, df["observed_max"],
+                             ",".join(df["directives"]), [b for a, b in zip(df["observed"], df["fresh_filter"]) if a != b], df["fresh_max"]),
+                          {"case": txt, "first_difference": df, "replay": "harness/sched h_envreload <case file>"})
+    rep.count("env-filter-histories", len(cases))
+
+
 def run(ctx):
     rep = Report(ctx)
     rep.rule = ("op-granularity histories: non-trivial = contains a reload that flips the verdict (old value vs new value) of a callsite that was "
@@ -195,7 +325,7 @@ def run(ctx):
     vlib.gen_if_changed(os.path.join(vlib.COQ, "gen", "Gen_sched_points.v"), text)
     rep.tie("translator:Gen_sched_points", not unrec, "; ".join(unrec[:4]), unrec[:1] or None)
     rep.proof = coq_prove(ctx, "C12", ["theories/Properties/C12.vo"])
-    ok, paths, log = cargo_build(ctx, "sched", ["h_sched"])
+    ok, paths, log = cargo_build(ctx, "sched", ["h_sched", "h_envreload"])
     if not ok:
         rep.tie("build:h_sched", False, vlib.last_error(log))
         return rep
@@ -270,5 +400,7 @@ def run(ctx):
             rep.extra["exhaustive_interleavings"] = ex_names
     else:
         rep.count("forced-schedules-skipped-no-hooks")
+    # ---- EnvFilter with span-scoped directives, reload and in-place modify, against a fresh filter
+    env_stream(ctx, rep, paths["h_envreload"], 260 if thorough else 45)
     rep.samples = [{"history": sc.case_text(hist[min(2, len(hist) - 1)])[:700]}]
     return rep
